@@ -16,6 +16,7 @@ import (
 	"strconv"
 	"strings"
 	"sync"
+	"sync/atomic"
 	"time"
 
 	"github.com/gorilla/websocket"
@@ -45,6 +46,7 @@ type Case struct {
 	ExpOff  int64  `json:"exp_off"` // exp = s0 + ExpOff
 	Other   string `json:"other"`   // "" | topic | aud | denied | scope : a non-time check made to fail
 	Pongs   bool   `json:"pongs"`
+	Behave  string `json:"behave"`  // "" | upong-empty | upong-payload | cping | emptymsg | closeframe | wrongpong | heartbeat
 	WatchS  int64  `json:"watch_s"` // 0 = until exp + 2.2 s ; else seconds after admission
 
 	// observed (absolute ns / s)
@@ -59,6 +61,10 @@ type Case struct {
 	SockClosed bool    `json:"sock_closed"`     // after the watch the socket answered a read with an error, not a timeout
 	LastFrom   int64   `json:"last_from_probe"` // partner last received a probe message at
 	LastTo     int64   `json:"last_to_probe"`   // probe last received a partner message at
+	UPongAt    []int64 `json:"upong_at"`        // unsolicited pongs the client sent
+	CPingAt    []int64 `json:"cping_at"`        // pings the client sent
+	CCloseAt   int64   `json:"cclose_at"`       // the client sent a close frame (TCP kept open) at
+	PongsBack  int     `json:"pongs_back"`      // pongs the relay sent in answer to the client's pings
 	DataAt     []int64 `json:"data_at"`         // when messages were delivered to the probe (at most 200 kept)
 	Note       string  `json:"note,omitempty"`
 }
@@ -69,8 +75,16 @@ func (c Case) coq() string {
 	for i, d := range c.DataAt {
 		data[i] = lib.Z(d)
 	}
+	zs := func(xs []int64) string {
+		out := make([]string, len(xs))
+		for i, d := range xs {
+			out[i] = lib.Z(d)
+		}
+		return lib.List(out)
+	}
 	return lib.App("mkcase", lib.Z(c.TLo), lib.Z(c.THi), lib.Z(c.Nbf), lib.Z(c.Exp),
-		lib.Bool(c.Other == ""), lib.Bool(c.Pongs), lib.List(data), lib.Z(c.WatchUntil), lib.Bool(c.Accepted), closed)
+		lib.Bool(c.Other == ""), lib.Bool(c.Pongs), lib.List(data), zs(c.UPongAt), zs(c.CPingAt),
+		lib.OptionOf(c.CCloseAt != 0, lib.Z(c.CCloseAt)), lib.Z(c.WatchUntil), lib.Bool(c.Accepted), closed)
 }
 
 // ---------------------------------------------------------------- the relay under test
@@ -254,6 +268,14 @@ func runCase(r *rig, idx int, c *Case, tag string) {
 	if !c.Pongs {
 		probe.SetPingHandler(func(string) error { return nil }) // swallow pings
 	}
+	if c.Behave == "wrongpong" {
+		// answers the relay's pings, but with a payload of its own
+		probe.SetPingHandler(func(string) error {
+			return probe.WriteControl(websocket.PongMessage, []byte("not-your-ping"), time.Now().Add(time.Second))
+		})
+	}
+	var pongsBack int64
+	probe.SetPongHandler(func(string) error { atomic.AddInt64(&pongsBack, 1); return nil })
 	if c.Mode == "ignoreclose" {
 		probe.SetCloseHandler(func(int, string) error { return nil })
 	}
@@ -281,10 +303,67 @@ func runCase(r *rig, idx int, c *Case, tag string) {
 			}
 		}()
 	}
-	pwrite := func(b []byte) {
+	var pwmu sync.Mutex // one data writer at a time on the probe socket
+	pwriteT := func(mt int, b []byte) {
+		pwmu.Lock()
 		probe.SetWriteDeadline(time.Now().Add(200 * time.Millisecond))
-		probe.WriteMessage(websocket.BinaryMessage, b)
+		probe.WriteMessage(mt, b)
+		pwmu.Unlock()
 	}
+	pwrite := func(b []byte) { pwriteT(websocket.BinaryMessage, b) }
+	// what else this client does besides reading and answering pings (all of it legitimate)
+	var upongAt, cpingAt []int64
+	var ccloseAt int64
+	behaveDone := make(chan struct{})
+	go func() {
+		defer close(behaveDone)
+		if c.Behave == "" || c.Behave == "wrongpong" || !c.Accepted {
+			return
+		}
+		every := 400 * time.Millisecond
+		if c.WatchS >= 50 {
+			every = 5 * time.Second
+		}
+		time.Sleep(300 * time.Millisecond)
+		for k := 0; time.Now().Before(until); k++ {
+			now := time.Now().UnixNano()
+			ctl := func(mt int, payload []byte) error {
+				return probe.WriteControl(mt, payload, time.Now().Add(time.Second))
+			}
+			switch c.Behave {
+			case "upong-empty":
+				if ctl(websocket.PongMessage, nil) == nil && len(upongAt) < 60 {
+					upongAt = append(upongAt, now)
+				}
+			case "upong-payload":
+				if ctl(websocket.PongMessage, []byte("heartbeat-"+strconv.Itoa(k))) == nil && len(upongAt) < 60 {
+					upongAt = append(upongAt, now)
+				}
+			case "cping":
+				if ctl(websocket.PingMessage, []byte("are-you-there")) == nil && len(cpingAt) < 60 {
+					cpingAt = append(cpingAt, now)
+				}
+			case "heartbeat": // both, alternating
+				if k%2 == 0 {
+					if ctl(websocket.PongMessage, []byte("hb")) == nil && len(upongAt) < 60 {
+						upongAt = append(upongAt, now)
+					}
+				} else if ctl(websocket.PingMessage, nil) == nil && len(cpingAt) < 60 {
+					cpingAt = append(cpingAt, now)
+				}
+			case "emptymsg":
+				pwriteT(websocket.TextMessage, []byte{})
+				pwriteT(websocket.BinaryMessage, []byte{})
+			case "closeframe":
+				// a close frame with a status; the client then keeps the TCP connection open
+				if ctl(websocket.CloseMessage, websocket.FormatCloseMessage(websocket.CloseNormalClosure, "bye")) == nil {
+					ccloseAt = now
+				}
+				return
+			}
+			time.Sleep(every)
+		}
+	}()
 	switch c.Mode {
 	case "busy", "ignoreclose":
 		// traffic both ways every 50 ms, through and past the expiry
@@ -350,6 +429,8 @@ func runCase(r *rig, idx int, c *Case, tag string) {
 	}
 	pmu.Lock()
 	c.LastFrom, c.LastTo, c.ClientErr, c.DataAt = lastFrom, lastTo, clientErr, append([]int64{}, dataAt...)
+	<-behaveDone
+	c.UPongAt, c.CPingAt, c.CCloseAt, c.PongsBack = upongAt, cpingAt, ccloseAt, int(atomic.LoadInt64(&pongsBack))
 	pmu.Unlock()
 }
 
@@ -370,6 +451,17 @@ func gen(rng *lib.Rng, tier string, n int) []Case {
 	}
 	for i := 0; i < n; i++ {
 		cs = append(cs, Case{Kind: "life", Mode: modes[rng.Intn(4)], PhaseMs: rng.Range(20, 950), NbfOff: -int64(rng.Range(0, 3)), ExpOff: int64(rng.Range(1, 4)), Pongs: true})
+	}
+	// legitimate client behaviours besides reading and answering pings, on the idle and busy cases
+	behaviours := []string{"upong-empty", "upong-payload", "cping", "emptymsg", "closeframe"}
+	nb := 0
+	for i := range cs {
+		if (cs[i].Mode == "idle" || cs[i].Mode == "busy") && cs[i].ExpOff >= 2 {
+			if nb < len(behaviours) || rng.Chance(1, 2) {
+				cs[i].Behave = behaviours[nb%len(behaviours)]
+				nb++
+			}
+		}
 	}
 	// not-before boundary: nbf one or two seconds ahead / exactly this second
 	cs = append(cs,
@@ -401,6 +493,10 @@ func gen(rng *lib.Rng, tier string, n int) []Case {
 	for _, m := range []string{"silent", "onemsg", "talker"} {
 		cs = append(cs, Case{Kind: "quiet", Mode: m, PhaseMs: 300, NbfOff: -1, ExpOff: 300, Pongs: true, WatchS: w})
 	}
+	// and across the relay's own ping: a client that answers it with a payload of its own, and one
+	// that sends heartbeat pongs and pings of its own every 5 s
+	cs = append(cs, Case{Kind: "quiet", Mode: "silent", Behave: "wrongpong", PhaseMs: 300, NbfOff: -1, ExpOff: 300, Pongs: true, WatchS: w},
+		Case{Kind: "quiet", Mode: "silent", Behave: "heartbeat", PhaseMs: 300, NbfOff: -1, ExpOff: 300, Pongs: true, WatchS: w})
 	if tier == "thorough" {
 		cs = append(cs,
 			Case{Kind: "longidle", Mode: "idle", PhaseMs: 500, NbfOff: -1, ExpOff: 3600, Pongs: true, WatchS: 130},
@@ -451,6 +547,9 @@ func oracle(c Case, idx int, res *lib.Result) {
 		// the client reads, answers every ping, nobody cancelled, the token has minutes left
 		if c.Dropped != 0 && c.Dropped < E-earlyTol {
 			what := map[string]string{"silent": "silent", "onemsg": "quiet-after-traffic", "talker": "talker"}[c.Mode]
+			if c.Behave != "" {
+				what = c.Behave
+			}
 			clause := "closed-before-expiry:" + what
 			res.Violate(lib.Violation{Clause: clause, Case: idx, Key: clause, Replay: c,
 				Detail: fmt.Sprintf("%s connection with a 300 s token, client answering pings: the relay itself closed it %.1f s after it joined (%.0f s before its expiry); messages delivered to it before: %d",
@@ -458,7 +557,23 @@ func oracle(c Case, idx int, res *lib.Result) {
 		}
 		return
 	}
+	if c.Behave == "cping" && len(c.CPingAt) > 0 && c.PongsBack == 0 && (c.Dropped == 0 || c.Dropped > c.CPingAt[0]+sec) {
+		bad("client-ping-unanswered", fmt.Sprintf("the client sent %d pings, the relay answered none with a pong", len(c.CPingAt)))
+	}
+	if c.Behave == "closeframe" {
+		// the client itself ended it: only "not before the close frame" is the relay's business here
+		if c.CCloseAt != 0 && c.Dropped != 0 && c.Dropped < c.CCloseAt-earlyTol && c.Dropped < E-earlyTol {
+			bad("closed-early", "relay ended the connection before the client's close frame and before its expiry")
+		}
+		return
+	}
 	// ended by the relay before E although the client reads, answers pings and nobody cancelled
+	if c.Behave != "" && c.Dropped != 0 && c.Dropped < E-earlyTol {
+		res.Violate(lib.Violation{Clause: "closed-before-expiry:" + c.Behave, Case: idx, Key: "closed-before-expiry:" + c.Behave, Replay: c,
+			Detail: fmt.Sprintf("%s/%s client that reads, answers pings and also does '%s' (unsolicited pongs sent: %d, pings sent: %d): the relay itself closed it %.3f s after it joined, %.3f s before its expiry",
+				c.Kind, c.Mode, c.Behave, len(c.UPongAt), len(c.CPingAt), float64(c.Dropped-c.TLo)/1e9, float64(E-c.Dropped)/1e9)})
+		return
+	}
 	if c.Dropped != 0 && c.Dropped < E-earlyTol && c.Pongs && c.Mode != "stall" {
 		bad("closed-early", fmt.Sprintf("relay ended the connection %.3f s before its expiry", float64(E-c.Dropped)/1e9))
 	}
@@ -561,6 +676,9 @@ func main() {
 		}
 		if c.Other != "" {
 			res.Count("other:" + c.Other)
+		}
+		if c.Behave != "" {
+			res.Count("behave:" + c.Behave)
 		}
 		if c.TLo/sec != c.THi/sec {
 			res.Count("ambiguous-discarded")
